@@ -508,6 +508,108 @@ def p1(h, st):
     h.done()
 
 
+# ---------------------------------------------------------------------------------------------------------------------
+# P2  trotterize for EVERY number of Trotter steps (symbolic integer) - callees replaced by their contracts
+
+class _PhaseToken:
+    def __init__(self):
+        self.pows = []
+
+    def __pow__(self, n):
+        self.pows.append(n)
+        return ("phase ** n", self, n)
+
+
+@contract("C06", "P2.trotterize.any_number_of_steps", targets=[(AU, "trotterize")], level="P",
+          structures=lambda tier: [{"time": t, "return_phase": rp, "op": o} for t in ("scalar", "dict") for rp in (False, True) for o in ("qubit", "fermion")])
+def p2(h, st):
+    """for EVERY number of Trotter steps N >= 1 (symbolic integer), every time t (scalar, or a per-term dictionary) and every coefficient: the single-step circuit is requested
+    from get_exponentiated_qubit_operator_circuit (contracts O4 / P1) with the time t / N per term (qubit operators; the operator itself is handed over as a copy) or, for fermionic
+    operators, with every coefficient multiplied by its t / N and time 1, with the Trotter order / variational flag / control forwarded and the phase requested; the result is
+    that circuit repeated N times (Circuit.__mul__, contract C11.P7) and the single-step phase to the power N; the operator and the time dictionary passed in are unchanged"""
+    if not h.symbolic:
+        h.check("native: covered by O7 / O7b", True)
+        h.done()
+        return
+    from tangelo.linq import Circuit
+    from tangelo.toolboxes.operators import QubitOperator, FermionOperator
+    N = h.integer("N")
+    h.assume(N >= 1)
+    t1, t2, c1, c2 = h.real("t1"), h.real("t2"), h.real("c1"), h.real("c2")
+    h.assume(c1 > 0.5)
+    h.assume(c2 > 0.5)
+    if st["op"] == "fermion":
+        # requires: single-step coefficients above openfermion's 1e-8 compression threshold (terms below it are dropped by openfermion's +=)
+        h.assume(t1 > 0.5)
+        h.assume(t2 > 0.5)
+        h.assume(N <= 1000000)
+    if st["op"] == "qubit":
+        op = QubitOperator()
+        terms = [((0, "X"), (1, "Y")), ((2, "Z"),)]
+    else:
+        op = FermionOperator()
+        terms = [((1, 1), (0, 0)), ((2, 1), (2, 0))]
+    op.terms = {terms[0]: c1, terms[1]: c2}
+    before = dict(op.terms)
+    time = t1 if st["time"] == "scalar" else {terms[0]: t1, terms[1]: t2}
+    tb = dict(time) if isinstance(time, dict) else None
+    calls, muls = [], []
+    step_circuit = Circuit.__new__(Circuit)
+    phase = _PhaseToken()
+    stub(h, AU, "get_exponentiated_qubit_operator_circuit", lambda a, k: (step_circuit, phase), log=calls)
+    stub(h, CIRC, "Circuit.__mul__", lambda a, k: Opaque("circuit * n", of=a[0], n=a[1]), log=muls)
+    if st["op"] == "fermion":
+        stub(h, "tangelo/toolboxes/qubit_mappings/mapping_transform.py", "fermion_to_qubit_mapping", lambda a, k: Opaque("mapped", kw=k, a=a))
+
+        def init_stub(a, kw):
+            # (openfermion's constructor insists on concrete numeric coefficients; the term dictionary is what the code under contract builds and reads)
+            me = a[0]
+            t = a[1] if len(a) > 1 else kw.get("term")
+            cf = a[2] if len(a) > 2 else kw.get("coefficient", 1.)
+            me.terms = {} if t is None else {tuple(t): cf}
+            me.n_spinorbitals = me.n_electrons = me.spin = None
+        stub(h, "tangelo/toolboxes/operators/operators.py", "FermionOperator.__init__", init_stub)
+    out = h.call(AU, "trotterize", op, time, N, 2, True, {}, [3, 4], st["return_phase"])
+    h.check("operator unchanged", op.terms == before)
+    if tb is not None:
+        h.check("time dictionary unchanged", time == tb)
+    h.shape("one single-step request", len(calls) == 1)
+    a, k = calls[0]
+    full = dict(zip(["qubit_op", "time", "variational", "trotter_order", "control", "return_phase", "pauli_order"], a))
+    full.update(k)
+    h.check("Trotter order, variational flag and control forwarded; the phase is requested", full.get("trotter_order") == 2 and full.get("variational") is True
+            and full.get("control") == [3, 4] and full.get("return_phase") is True)
+    per_term = {terms[0]: t1, terms[1]: (t1 if st["time"] == "scalar" else t2)}
+    if st["op"] == "qubit":
+        q = full.get("qubit_op")
+        h.check("the operator is handed over as a copy with the same terms", q is not op and dict(q.terms) == before)
+        et = full.get("time")
+        if st["time"] == "scalar":
+            h.check_close("single-step time * N == t", et * N, t1)
+        else:
+            h.shape("per-term single-step times", isinstance(et, dict) and set(et) == set(terms))
+            for tm in terms:
+                h.check_close(f"single-step time of term {tm} * N == its time", et[tm] * N, per_term[tm])
+    else:
+        m = full.get("qubit_op")
+        h.shape("the mapped single-step operator is exponentiated", isinstance(m, Opaque) and m._label == "mapped")
+        fo = m._info["kw"].get("fermion_operator", m._info["a"][0] if m._info["a"] else None)
+        h.check_close("time 1 (already included in the coefficients)", full.get("time"), 1)
+        h.shape("single-step fermionic operator with the same terms", fo is not None and set(fo.terms) == set(terms))
+        for tm, cf in ((terms[0], c1), (terms[1], c2)):
+            h.check_close(f"coefficient of {tm} * N == coefficient * its time", fo.terms[tm] * N, cf * per_term[tm])
+    h.shape("the single-step circuit is repeated", len(muls) == 1 and muls[0][0][0] is step_circuit)
+    h.check_close("... N times", muls[0][0][1], N)
+    if st["return_phase"]:
+        h.check("(circuit * N, phase ** N) returned", isinstance(out, tuple) and len(out) == 2 and isinstance(out[0], Opaque) and out[0]._info.get("of") is step_circuit
+                and isinstance(out[1], tuple) and out[1][1] is phase)
+        if isinstance(out, tuple) and isinstance(out[1], tuple):
+            h.check_close("phase raised to the power N", out[1][2], N)
+    else:
+        h.check("circuit * N returned", isinstance(out, Opaque) and out._info.get("of") is step_circuit)
+    h.done()
+
+
 from tverif.engine import repeatable
 repeatable((AU, "exp_pauliword_to_gates"), (AU, "get_exponentiated_qubit_operator_circuit"), (AU, "trotterize"), (AU, "recursive_trotter_suzuki_decomposition"))
 
